@@ -50,9 +50,9 @@ type vfcmWorld struct {
 	entered  chan int
 	exited   chan int
 	// accept gate (stopgate scenario): the accept loop is held right after Accept returned a connection
-	holdAccept  int32         // how many of the next accepted connections to hold (atomic)
-	acceptHeld  chan struct{} // signalled when one is being held
-	acceptGo    chan struct{} // closed to let them go
+	holdAccept int32         // how many of the next accepted connections to hold (atomic)
+	acceptHeld chan struct{} // signalled when one is being held
+	acceptGo   chan struct{} // closed to let them go
 }
 
 // vfcmManualListen: the next world starts its accept loop over a listener whose connections can be held between
